@@ -24,10 +24,10 @@ def worker(cases):
 
 GLSDEFS = ('\\gls@defglossaryentry{%(l)s}{name={%(n)s},text={%(t)s},plural={%(t)ss},description={%(d)s}}\n')
 
-def gen_doc(rng, k):
+def gen_doc(rng, k, kind=None):
     """documents that define / observe state: macros, glossary, languages, packages, placeholders, item counters"""
     names = gen.Names(rng)
-    kind = rng.choice(['define', 'use', 'gls-def', 'gls-use', 'lang', 'math', 'items', 'pkg', 'plain', 'theorem', 'cref', 'cref', 'lang-unknown', 'lang-option'])
+    kind = kind or rng.choice(['define', 'use', 'gls-def', 'gls-use', 'lang', 'math', 'items', 'pkg', 'plain', 'theorem', 'cref', 'cref', 'lang-unknown', 'lang-option', 'theorem', 'theorem-use', 'theorem-use'])
     if kind == 'cref':
         # package cleveref with a sed file that may lack labels the document uses (a stale file)
         c = cref.make(rng, stale=rng.random() < 0.6)
@@ -61,8 +61,15 @@ def gen_doc(rng, k):
     elif kind == 'pkg':
         src = '\\usepackage{%s} %s \\textcolor{red}{%s} \\eqref{x}' % (rng.choice(['xcolor', 'amsmath', 'biblatex', 'hyperref']), names.word(), names.word())
         o['pack'] = rng.choice(['', 'babel'])
+    elif kind == 'theorem-use':
+        # uses theorem environments that THIS document does not declare (an earlier document may have)
+        src = '\\begin{thm} %s \\end{thm} \\begin{lemma} %s \\end{lemma} %s' % (names.word(), names.word(), names.word())
+        o['pack'] = rng.choice(['*', 'geometry', ''])
+        o['dcls'] = rng.choice(['article', 'book', 'scrartcl', ''])
+        if rng.random() < 0.5:
+            o['unkn'] = True
     elif kind == 'theorem':
-        src = '\\newtheorem{thm}{%s}\\begin{thm} %s \\end{thm} \\begin{proof} %s \\end{proof}' % (names.word(), names.word(), names.word())
+        src = '\\newtheorem{thm}{%s}\\newtheorem{lemma}[thm]{%s}\\begin{thm} %s \\end{thm} \\begin{proof} %s \\end{proof}' % (names.word(), names.word(), names.word(), names.word())
     else:
         ast, r = gen.make_doc(rng, n=rng.randint(2, 5))
         src = r.src()
@@ -89,7 +96,11 @@ def run(ctx):
     for _ in range(ctx.scale(40, 800)):
         k = rng.randint(2, 6)
         seqs.append([gen_doc(rng, i) for i in range(k)])
-    # every ordered pair (definer, observer) of the stateful kinds at least once
+    # every (definer, observer) pair of the stateful kinds at least once, in both orders
+    for a, b in [('define', 'use'), ('gls-def', 'gls-use'), ('lang-unknown', 'lang-option'), ('theorem', 'theorem-use'), ('cref', 'cref'),
+                 ('math', 'math'), ('items', 'items'), ('lang', 'plain'), ('pkg', 'use')]:
+        seqs.append([gen_doc(rng, 0, a), gen_doc(rng, 1, b)])
+        seqs.append([gen_doc(rng, 0, a), gen_doc(rng, 1, 'plain'), gen_doc(rng, 2, b), gen_doc(rng, 3, b)])
     ctx.stats['_rule'] = ('sequences of 2-6 (document, options) calls in one interpreter (subprocess), built so that earlier documents define macros, '
                           'glossary entries (.glsdefs), languages, packages, theorem environments, rotate placeholders and advance item counters that later '
                           'ones would observe; each result compared with the same call made alone in a fresh interpreter, and with itself repeated; '
